@@ -51,13 +51,17 @@ type c19Case struct {
 var c19Msgs = map[string]string{"A": `{"a":1}`, "B": `{"b":1}`, "C": `{"c":1}`, "noise": `this is not json`,
 	// T2 matches pattern T in two ways (?t = x, ?t = y), T1 in one
 	"T1": `{"tags":["x"]}`, "T2": `{"tags":["x","y"]}`,
+	// scalar messages: a number, the string of its digits, a boolean, its name, and the text of message A as a string
+	"N2": `2`, "Q2": `"2"`, "Bt": `true`, "Qt": `"true"`, "QA": `"{\"a\":1}"`,
 	// long lines (beyond any reader's default buffer): a message is a message whatever its length
 	"LA": `{"a":1,"pad":"` + strings.Repeat("x", 6000) + `"}`, "LB": `{"b":1,"pad":"` + strings.Repeat("y", 9000) + `"}`}
 
 // P: like A, but the variable it binds is a permanent one (its name ends in '!')
 var c19Pats = map[string]interface{}{"A": M{"a": "?x"}, "B": M{"b": "?y"}, "T": M{"tags": []interface{}{"?t"}}, "P": M{"a": "?id!"},
 	// property-variable patterns: K1 matches every one of the messages A, B, C; K2 matches none of them
-	"K1": M{"?k": 1.0}, "K2": M{"?k": 2.0}}
+	"K1": M{"?k": 1.0}, "K2": M{"?k": 2.0},
+	// patterns that are bare strings whose text reads like another JSON value
+	"S2": "2", "St": "true", "Sq": `{"a":1}`}
 
 // refPass: the pass conditions, with the most permissive consumption (a step ends at the earliest
 // message after which all its expected outputs have been matched).
@@ -294,7 +298,7 @@ func C19(c *vh.Ctx) {
 	maxSet, maxStream := c.Pick(2, 3), c.Pick(3, 4)
 	c.Bound("output_set_max", maxSet)
 	c.Bound("stream_max", maxStream)
-	c.Rule("sessions of one step with every output set (multiset) of up to the bound over {pattern A, pattern B} x {expected, inverted} x guard {none, accept, reject}, a second family with a pattern that matches one message in several ways (an array variable) with guards that accept all / one of the ways, a family with property-variable patterns (one that every message matches, one that none does), a family whose patterns bind permanent variables (names ending in '!') under accepting and rejecting guards, a family with emitted lines of 6 and 9 kilobytes (longer than a default read buffer; the whole stream stays below the pipe buffer, because the tool does not drain the output of a subprocess it has stopped listening to), two-step sessions over a reduced set list, also with the stream arriving in two writes, and with its second part arriving three seconds late while every step's timeout is 0.3 s (for the verdict those lines never arrive; a tool that gives no verdict for 30 s although its timeouts are below a second is reported too); every stream up to the bound over {A, B, C, a non-JSON noise line} including repetitions; the sessions with short streams also written as session files (documented fields) and loaded as cmd/mexpect loads them; the tool drives a scripted subprocess that prints the stream; oracle: the tool may pass only if the reference pass conditions hold (most permissive consumption). Cases the reference fails run with a short timeout (which can only turn pass into fail). non-trivial = reference says pass.")
+	c.Rule("sessions of one step with every output set (multiset) of up to the bound over {pattern A, pattern B} x {expected, inverted} x guard {none, accept, reject}, a second family with a pattern that matches one message in several ways (an array variable) with guards that accept all / one of the ways, a family with bare string patterns whose text reads like another JSON value (\"2\", \"true\", the text of a message) against scalar messages, as Go values and as session files, a family with property-variable patterns (one that every message matches, one that none does), a family whose patterns bind permanent variables (names ending in '!') under accepting and rejecting guards, a family with emitted lines of 6 and 9 kilobytes (longer than a default read buffer; the whole stream stays below the pipe buffer, because the tool does not drain the output of a subprocess it has stopped listening to), two-step sessions over a reduced set list, also with the stream arriving in two writes, and with its second part arriving three seconds late while every step's timeout is 0.3 s (for the verdict those lines never arrive; a tool that gives no verdict for 30 s although its timeouts are below a second is reported too); every stream up to the bound over {A, B, C, a non-JSON noise line} including repetitions; the sessions with short streams also written as session files (documented fields) and loaded as cmd/mexpect loads them; the tool drives a scripted subprocess that prints the stream; oracle: the tool may pass only if the reference pass conditions hold (most permissive consumption). Cases the reference fails run with a short timeout (which can only turn pass into fail). non-trivial = reference says pass.")
 	kinds := []expOut{}
 	for _, p := range []string{"A", "B"} {
 		for _, inv := range []bool{false, true} {
@@ -454,6 +458,36 @@ func C19(c *vh.Ctx) {
 				}
 				one(c19Case{Steps: [][]expOut{set}, Stream: st})
 				c.Count("property_variable_cases", 1)
+			}
+		}
+	}
+	// bare string patterns whose text reads like another JSON value: "2" expects the string, not the number
+	{
+		sKinds := []expOut{{Pat: "S2"}, {Pat: "S2", Inverted: true}, {Pat: "St"}, {Pat: "Sq"}, {Pat: "A"}}
+		var sSets [][]expOut
+		for i, k1 := range sKinds {
+			sSets = append(sSets, []expOut{k1})
+			for _, k2 := range sKinds[i+1:] {
+				sSets = append(sSets, []expOut{k1, k2})
+			}
+		}
+		var sStreams [][]string
+		for _, a := range []string{"N2", "Q2", "Bt", "Qt", "QA", "A", "C"} {
+			sStreams = append(sStreams, []string{a})
+			for _, b := range []string{"N2", "Q2", "Bt", "Qt", "QA", "A"} {
+				sStreams = append(sStreams, []string{a, b}, []string{"C", a, b})
+			}
+		}
+		for _, set := range sSets {
+			for _, st := range sStreams {
+				idx++
+				if !c.Mine(idx) || c.Expired() {
+					continue
+				}
+				for _, viaYAML := range []bool{false, true} {
+					one(c19Case{Steps: [][]expOut{set}, Stream: st, ViaYAML: viaYAML})
+				}
+				c.Count("string_pattern_cases", 2)
 			}
 		}
 	}
